@@ -860,6 +860,7 @@ fn scenario_wire(c: &mut Choices, o: &mut Outcome) {
   o.digest = fnv(o.sample.as_bytes());
   let rid = eid_bytes(rig::user_reader_eid(1, true));
   let wid = eid_bytes(rig::user_writer_eid(1, true));
+  let mut datagrams: Vec<Vec<u8>> = Vec::new();
   for (it, w) in items.iter().zip(wires.iter()) {
     let mut dg = wire::rtps_header((2, 4), [1, 0x12], &wguid.prefix.bytes);
     let (flags, body) = match w {
@@ -937,7 +938,29 @@ fn scenario_wire(c: &mut Choices, o: &mut Outcome) {
       }
     };
     wire::push_submessage(&mut dg, wire::DATA, flags, &body, None);
-    node.inject(&dg);
+    datagrams.push(dg);
+  }
+  // arrival order: usually as sent, sometimes with neighbours swapped or a stretch reversed
+  // (UDP reordering, retransmission after loss); drawn last
+  let mut order: Vec<usize> = (0..datagrams.len()).collect();
+  if datagrams.len() >= 2 && c.chance(110) {
+    for _ in 0..1 + c.pick(3) {
+      let i = c.pick(datagrams.len() - 1);
+      if c.chance(200) {
+        order.swap(i, i + 1);
+      } else {
+        let j = (i + 2 + c.pick(4)).min(datagrams.len());
+        order[i..j].reverse();
+      }
+    }
+    if order.windows(2).any(|w| w[0] > w[1]) {
+      o.label("arrival-out-of-order");
+      o.sample.push_str(&format!(" arrival={order:?}"));
+      o.digest = fnv(o.sample.as_bytes());
+    }
+  }
+  for i in &order {
+    node.inject(&datagrams[*i]);
   }
   // the writer announces what it has sent, as every reliable writer does
   let mut hb = wire::rtps_header((2, 4), [1, 0x12], &wguid.prefix.bytes);
